@@ -77,7 +77,7 @@ impl Prop for C05 {
     }
     fn components(&self) -> Value {
         json!({"real": ["sentinel-core: EntryBuilder, slot chain, isolation slot/manager, hotspot slot/manager/concurrency stat slot/LRU counter cache, resource node concurrency"],
-               "stub": ["clock (virtual, hook H1)", "getrandom (seeded)", "logger (none)"]})
+               "stub": ["clock (virtual, hook H1)", "getrandom (seeded)", "logger (a sink that formats every record of the library and discards it)"]})
     }
 
     fn generate(&self, rng: &mut Rng, slot_ns: u64, _avoid: bool) -> Value {
